@@ -86,12 +86,49 @@ type Case struct {
 	// Resolve[resolver][domain] = "a<ip>" | "l" (dns.ErrLookup) | "f:noaddr" (dns.ErrDomainNoAssociatedIPs) |
 	// "f:other" | "f:wrapped" (an error wrapping dns.ErrLookup). Missing entries mean "l".
 	Resolve  map[string]map[string]string `json:"resolve"`
-	DomSets  []string                     `json:"domainSets"` // names from the fixed pool (see pool.go)
+	DomSets  []string                     `json:"domainSets"` // names from the fixed pool (see pool.go) or of CustomDomSets
 	PfxSets  []string                     `json:"prefixSets"`
+	// CustomDomSets / CustomPfxSets: sets generated for this case (rule order matters: it is the file's line order).
+	CustomDomSets map[string][]domRule `json:"customDomainSets,omitempty"`
+	CustomPfxSets map[string][]string  `json:"customPrefixSets,omitempty"`
+	// GobDomSets: custom domain sets that are loaded through the gob format (text -> Builder -> gob file).
+	GobDomSets []string `json:"gobDomainSets,omitempty"`
 	DefTCP   string                       `json:"defaultTCPClientName,omitempty"`
 	DefUDP   string                       `json:"defaultUDPClientName,omitempty"`
 	Routes   []RouteSpec                  `json:"routes"`
 	Requests []ReqSpec                    `json:"requests"`
+}
+
+func (c *Case) domSetRules(name string) []domRule {
+	if r, ok := c.CustomDomSets[name]; ok {
+		return r
+	}
+	return poolDomSets[name]
+}
+
+func (c *Case) pfxSetPrefixes(name string) []string {
+	if p, ok := c.CustomPfxSets[name]; ok {
+		return p
+	}
+	return poolPfxSets[name]
+}
+
+func (c *Case) domSetMatch(name, d string) bool { return rulesMatch(c.domSetRules(name), d) }
+
+// universe: every domain the driver needs a table entry for = the fixed universes + the targets of this case.
+func (c *Case) universe() []string {
+	u := append(append([]string(nil), domainUniverse...), labelUniverse...)
+	seen := map[string]bool{}
+	for _, d := range u {
+		seen[d] = true
+	}
+	for _, q := range c.Requests {
+		if q.DstDom != "" && !seen[q.DstDom] {
+			seen[q.DstDom] = true
+			u = append(u, q.DstDom)
+		}
+	}
+	return u
 }
 
 // ---------- rendering for the Lean driver ----------
@@ -232,15 +269,15 @@ func (c Case) lines() (ls []string, buildIdx int, reqIdx int) {
 	for _, n := range c.DomSets {
 		// the named set as a table over the domain universe, by the brute-force definition of the rules
 		var ms []string
-		for _, d := range domainUniverse {
-			if poolDomSetMatch(n, d) {
+		for _, d := range c.universe() {
+			if c.domSetMatch(n, d) {
 				ms = append(ms, d)
 			}
 		}
 		ls = append(ls, strings.TrimRight("dset "+n+" "+strings.Join(ms, ","), " "))
 	}
 	for _, n := range c.PfxSets {
-		ls = append(ls, strings.TrimRight("pset "+n+" "+mapStr(poolPfxSets[n], pfxTok), " "))
+		ls = append(ls, strings.TrimRight("pset "+n+" "+mapStr(c.pfxSetPrefixes(n), pfxTok), " "))
 	}
 	for _, r := range c.Routes {
 		ls = append(ls, r.line())
